@@ -37,6 +37,9 @@ func histScriptFor(ops []kmodel.Op) *histScript {
 			if o.Kind == kmodel.KindBadFlag {
 				fl |= 1 << 7
 			}
+			if o.Log {
+				fl |= 2
+			}
 			sc.Ops = append(sc.Ops, histOp{Op: "load", T: o.T, Kind: o.Kind, Flags: fl, NNP: o.NNP})
 		}
 		obs()
@@ -285,7 +288,7 @@ func checkC09(tier, replay string) int {
 	ctx.Cov["final_steps_by_kernel_answer"] = map[string]int64{"attached": st.attached, "tsync_refused": st.refusals, "EACCES": st.eacces, "EINVAL": st.einval, "invalid_policy_no_kernel_contact": st.invalid}
 	ctx.Cov["model_kernel_mismatches"] = st.modelMismatch
 	ctx.Cov["depth"] = depth
-	ctx.Cov["rule"] = "explicit-state breadth-first search over the kernel model (3 harness threads + the class of all other threads; per thread: no_new_privs bit and filter stack with ancestry) with 61 operations (Load on T0..T2 x {A,B,invalid,oversize,badflag} x tsync x nnp, Supported) from the privileged and the uid-65534 initial state, deduplicated on the canonical model state; every transition is replayed by running its shortest history plus the operation through the real LoadFilter in a fresh child process, reading /proc/self/task/*/status and probing after every step"
+	ctx.Cov["rule"] = "explicit-state breadth-first search over the kernel model (3 harness threads + the class of all other threads; per thread: no_new_privs bit and filter stack with ancestry) with 85 operations (Load on T0..T2 x {A,B,invalid,oversize,badflag} x tsync x nnp, valid kinds also with the log flag; Supported) from the privileged and the uid-65534 initial state, deduplicated on the canonical model state; every transition is replayed by running its shortest history plus the operation through the real LoadFilter in a fresh child process, reading /proc/self/task/*/status and probing after every step"
 	ctx.Assumptions = []string{"kernel model kmodel (validated against this kernel on every transition: model_kernel_mismatches must be 0)", "state deduplication is sound because the compared observables (NNP, filter count, probe answers of every thread) plus the ancestry structure kept in the canonical form are the whole state the kernel rules depend on", "runtime threads other than the three harness threads only change through thread-sync"}
 	return ctx.Finish()
 }
